@@ -126,6 +126,12 @@ func tsCalendarPeriod(kind string, loc *time.Location) (timeseries.AlignmentPeri
 		return timeseries.NewWeekAlignmentPeriod(loc), nil
 	case "month":
 		return timeseries.NewMonthAlignmentPeriod(loc), nil
+	case "quarter":
+		return timeseries.NewQuarterAlignmentPeriod(loc), nil
+	case "halfyear":
+		return timeseries.NewHalfYearAlignmentPeriod(loc), nil
+	case "year":
+		return timeseries.NewYearAlignmentPeriod(loc), nil
 	}
 	return nil, fmt.Errorf("bad calendar kind %q", kind)
 }
@@ -439,7 +445,39 @@ func execC13(caseText string) string {
 		out, err := res.Stream().Collect(ctx)
 		return tsResRows(out, err)
 	})
-	return "A=" + resA + " U=" + resU + " D=" + resD + " R=" + resR
+	// R3: report aligner filter on three-field rows [constant of the declared type, the value, a ramp of the other numeric
+	// type]: every field of an interpolated row carries its own interpolation (a field that does not change included)
+	resR3 := tsGuard(func() string {
+		oty := byte('f')
+		if ty == 'f' {
+			oty = 'i'
+		}
+		var fms []tsquery.FieldMeta
+		for j, t := range []byte{ty, ty, oty} {
+			fm, err := tsquery.NewFieldMeta(fmt.Sprintf("f%d", j), tsDataType(t), true)
+			if err != nil {
+				return "err:meta"
+			}
+			fms = append(fms, *fm)
+		}
+		recs := make([]timeseries.TsRecord[[]any], len(pts))
+		for i, p := range pts {
+			var c0, c2 any
+			if ty == 'i' {
+				c0, c2 = int64(7), float64(i)*0.5
+			} else {
+				c0, c2 = float64(7.5), int64(3*i)
+			}
+			recs[i] = timeseries.TsRecord[[]any]{Timestamp: tsReloc(reloc, i, p.T), Value: []any{c0, p.C[0].any(), c2}}
+		}
+		res, err := report.NewAlignerFilter(mkPeriod()).Filter(ctx, report.NewResult(fms, stream.Just(recs...)))
+		if err != nil {
+			return "err:filter"
+		}
+		out, err := res.Stream().Collect(ctx)
+		return tsResRows(out, err)
+	})
+	return "A=" + resA + " U=" + resU + " D=" + resD + " R=" + resR + " R3=" + resR3
 }
 
 // ---- generation ----
@@ -492,6 +530,12 @@ func tsBuildTable(kind, zone string, from time.Time, n int) (string, []int64) {
 		step = (7*24 + 36) * time.Hour
 	case "month":
 		step = 45 * 24 * time.Hour
+	case "quarter":
+		step = 135 * 24 * time.Hour
+	case "halfyear":
+		step = 270 * 24 * time.Hour
+	case "year":
+		step = 540 * 24 * time.Hour
 	}
 	cur := ap.GetStartTime(from)
 	bs := []int64{cur.UnixNano()}
@@ -526,6 +570,12 @@ var tsTabSpecs = []tsTabSpec{
 	{"week", "America/New_York", time.Date(2024, 2, 28, 12, 0, 0, 0, time.UTC)},
 	{"month", "Europe/Berlin", time.Date(2024, 2, 10, 12, 0, 0, 0, time.UTC)},
 	{"month", "America/New_York", time.Date(2024, 9, 10, 12, 0, 0, 0, time.UTC)},
+	// the longer calendar periods, in zones far from UTC (the instants of a case are carried in other locations: reloc)
+	{"quarter", "Asia/Kolkata", time.Date(2023, 11, 10, 12, 0, 0, 0, time.UTC)},
+	{"quarter", "America/New_York", time.Date(2023, 5, 10, 12, 0, 0, 0, time.UTC)},
+	{"halfyear", "Europe/Berlin", time.Date(2022, 2, 10, 12, 0, 0, 0, time.UTC)},
+	{"year", "America/New_York", time.Date(2019, 6, 10, 12, 0, 0, 0, time.UTC)},
+	{"year", "Asia/Kolkata", time.Date(2019, 6, 10, 12, 0, 0, 0, time.UTC)},
 }
 
 func tsPeriodKey(period string, t int64) int64 {
@@ -740,13 +790,16 @@ func genC13(c *Ctx) {
 			var ts []int64
 			for i := 0; i < ln; i++ {
 				j := r.Intn(len(bs) - 2) // stay inside the table: [b0, b(n-2))
-				switch r.Intn(5) {
+				switch r.Intn(6) {
 				case 0:
 					ts = append(ts, bs[j])
 				case 1:
 					ts = append(ts, bs[j]+1)
 				case 2:
 					ts = append(ts, bs[j+1]-1)
+				case 3:
+					// within a zone offset of a boundary (the local date differs between the carried locations)
+					ts = append(ts, bs[j+1]-int64(r.Range(1, 14*3600))*1000000000)
 				default:
 					ts = append(ts, bs[j]+int64(r.Next()%uint64(bs[j+1]-bs[j])))
 				}
